@@ -1,6 +1,7 @@
 (* C15: jitthreshold.  Public caller: Tsd.threshold validates [method] (one of the four strings,
-   integer tags 0..3 in the model) and passes the time support of the series, which has at least
-   one interval as soon as the series has a sample. *)
+   integer tags 0..3 in the model) and passes the time support of the series.  The support may be
+   EMPTY while the series is not (all timestamps equal: the default support [t, t] vanishes), so
+   nothing is assumed about the number of intervals. *)
 From Coq Require Import ZArith QArith String List Bool Lia.
 From Verif Require Import Jit.Lang Jit.Interp Jit.Safety Jit.Tactics Gen.Kernels.
 Import ListNotations.
@@ -10,8 +11,7 @@ Local Open Scope string_scope.
 Definition Pre_jitthreshold (args : list value) : Prop :=
   exists d1 d2 d3 d4 ta da s e thr method,
     args = [Ar (A1 d1 ta); Ar (A1 d2 da); Ar (A1 d3 s); Ar (A1 d4 e); Sc thr; Sc (VInt method)]
-    /\ zlen da = zlen ta /\ zlen s = zlen e /\ (zlen ta = 0 \/ 1 <= zlen s)
-    /\ 0 <= method <= 3.
+    /\ zlen da = zlen ta /\ zlen s = zlen e /\ 0 <= method <= 3.
 
 Definition ann_jitthreshold (l : nat) : annot :=
   match l with
@@ -21,15 +21,16 @@ Definition ann_jitthreshold (l : nat) : annot :=
   | 9%nat => ALoop [("ix_start", KArr); ("new_start", KArr)] (fun _ _ => True)
   | 4%nat => ALoop [("t", KInt); ("k", KInt); ("first", KAny); ("last", KAny);
                     ("ix_start", KArr); ("ix_end", KArr); ("new_start", KArr); ("new_end", KArr)]
-                   (fun st0 st => 0 <= getZ st "k" < getZ st0 "m")
+                   (fun st0 st => 0 <= getZ st "k" /\ (0 < getZ st0 "m" -> getZ st "k" < getZ st0 "m"))
   | 5%nat => ALoop [("k", KInt)]
-                   (fun st0 st => getZ st0 "k" <= getZ st "k" < getZ st0 "m")
+                   (fun st0 st => getZ st0 "k" <= getZ st "k"
+                                  /\ (0 < getZ st0 "m" -> getZ st "k" < getZ st0 "m"))
   | _ => ANone
   end.
 
 Theorem k_jitthreshold_safe : forall args, Pre_jitthreshold args ->
   forall fuel, safe_outcome (run fuel k_jitthreshold args).
 Proof.
-  intros args (d1 & d2 & d3 & d4 & ta & da & s & e & thr & method & -> & H1 & H2 & H3 & H4) fuel.
+  intros args (d1 & d2 & d3 & d4 & ta & da & s & e & thr & method & -> & H1 & H2 & H4) fuel.
   safe_start k_jitthreshold ann_jitthreshold. vc k_jitthreshold ann_jitthreshold.
 Qed.
